@@ -1,1 +1,2 @@
 import Generated.Consts
+import Generated.Tables
